@@ -87,6 +87,20 @@ func plusClass(labels []string) string {
 // isPlus: the bundle uses a feature of W+ (its auxiliary documents are then not necessarily all referenced).
 func isPlus(labels []string) bool { return plusClass(labels) != "bundle of W" }
 
+// onlyUnderSiblings: every unresolvable $ref of the bundle sits under a sibling keyword of a $ref.
+func onlyUnderSiblings(labels []string) bool {
+	n := 0
+	for _, l := range labels {
+		if strings.Contains(l, "dangling") || strings.Contains(l, "Dangling") {
+			if !strings.Contains(l, "danglingUnderSiblingOfRef") {
+				return false
+			}
+			n++
+		}
+	}
+	return n > 0
+}
+
 func hasDangling(labels []string) bool {
 	for _, l := range labels {
 		if strings.Contains(l, "dangling") || strings.Contains(l, "Dangling") {
@@ -112,6 +126,9 @@ func c09Flatten(c *Ctx, in *flatInput, o h.Opts, pol mcrt.Policy) {
 	case r.Panic != "":
 		viol("Flatten panics at "+r.PanicFrame+": "+panicClass(r.Panic)+" ("+plusClass(in.Labels)+")", r.Panic+" with options "+o.String())
 	case r.Err == "" && !o.ContinueOnError && hasDangling(in.Labels):
+		if onlyUnderSiblings(in.Labels) && !strings.Contains(string(r.Out), "missing.json") && !strings.Contains(string(r.Out), "nopeSibling") {
+			break // the unresolvable $refs sat under siblings of a $ref and the result no longer holds them (Expand drops such siblings)
+		}
 		viol("Flatten reports success although a $ref cannot be resolved ("+plusClass(in.Labels)+", "+modeOf(o)+")", "options "+o.String()+"; output: "+string(r.Out))
 	}
 }
